@@ -380,6 +380,10 @@ def part_matrix(ctx, d, dist):
                     dist[kk] = dist.get(kk, 0) + 1
             dist["cores=%d" % v["cores"]] = dist.get("cores=%d" % v["cores"], 0) + 1
             desc = {"paired": paired, "cfg": cfg.to_json(), "records": recs, "variant": v, "argv": res["argv"], "kind": "matrix"}
+            if res["exit"] != 0 and "does not fit into buffer" in (res["err"] or ""):
+                # --buffer-size smaller than one record: the documented refusal, not a difference in results
+                dist["buffer too small (skipped)"] = dist.get("buffer too small (skipped)", 0) + 1
+                continue
             if res["exit"] != 0:
                 ctx.violation("variant fails where the plain run succeeds: " + " ".join("%s" % k2 for k2 in sorted(v) if v[k2] not in ("", False, 1)),
                               {"what": "exit %r: %s" % (res["exit"], res["err"]), **desc}, True)
